@@ -55,6 +55,7 @@ class RecordDecl:
     obj_attrs: dict = field(default_factory=dict)     # dotted attribute path -> class name of the (stateless) object it denotes
     ctor_kwargs: bool = False                          # constructor takes the immutable fields as keyword arguments
     ctor: dict = field(default_factory=dict)          # initial values of mutable fields for `Cls()`; presence enables the constructor
+    ctor_assume: list = field(default_factory=list)   # [Clause] ASSUMED about a freshly constructed object (`result`); listed as assumptions
     value: bool = False                                # a frozen dataclass compared by its fields: a constructed value may equal an existing one
 
 
